@@ -165,7 +165,7 @@ func (e *Exec) havoc(st *State, vars map[*types.Var]bool, fields map[string]type
 	}
 	sort.Strings(fs)
 	// ghost state of buffers and encoders is loop-carried too
-	if len(st.bufs) > 0 {
+	if len(st.bufs) > 0 || len(st.encs) > 0 {
 		var hs []string
 		for h := range st.bufs {
 			hs = append(hs, h)
